@@ -55,11 +55,15 @@ def valid_series(draw):
 def invalid_series(draw):
   base = draw(valid_series())
   name, tags = base['name'], base['tags']
-  how = draw(st.integers(0, 6))
+  how = draw(st.integers(0, 8))
   segs = ['%s=%s' % (k, v) for k, v in tags if k != 'name']
-  bad = {0: '=v', 1: 'k=', 2: 'k!x=v', 3: 'k^=v', 4: 'k=~v', 5: 'kv', 6: ''}[how]
+  bad = {0: '=v', 1: 'k=', 2: 'k!x=v', 3: 'k^=v', 4: 'k=~v', 5: 'kv', 6: '', 7: '', 8: ''}[how]
   if how == 6:
     raw = ';' + ';'.join(segs + ['a=1'])        # empty metric name
+  elif how == 7:
+    if ';' in name or not name:
+      name = 'm'
+    raw = name + ';'                            # a lone trailing separator: one empty tag segment
   else:
     pos = draw(st.integers(0, len(segs)))
     segs.insert(pos, bad)
